@@ -1714,6 +1714,7 @@ def normalize(modules) -> Report:
     n2.expand_ifexp(modules, known, rep)
     n2.while_to_for(modules, known, rep)
     n2.unroll_constant_loops(modules, known, rep)
+    n2.unroll_small_lists(modules, known, rep)
     n2.constant_attr_access(modules, rep)
     n2.expand_table_dispatch(modules, known, rep)
     n2.expand_keyed_arms(modules, known, rep)
@@ -1727,6 +1728,8 @@ def normalize(modules) -> Report:
     n2.thread_constant_flags(modules, known, rep)
     n2.thread_none_sentinels(modules, known, rep)
     n2.resolve_conditional_joins(modules, known, rep)
+    n2.unroll_small_lists(modules, known, rep)
+    n2.fold_constant_tests(modules, known, rep)
     seen = set()
     rep.kept = [k for k in rep.kept if not (k in seen or seen.add(k))]
     return rep
